@@ -77,6 +77,9 @@ func HarnessC10BaseGunShoot() {
 	cfg.AutoTag.Enabled = vNondetBool("autotag")
 	cfg.AutoTag.NoTagOnly = vNondetBool("notagonly")
 	cfg.AutoTag.URIElements = 1
+	// httptrace: {trace, dump} change what is measured, never what is reported
+	cfg.HTTPTrace.TraceEnabled = vNondetBool("trace")
+	cfg.HTTPTrace.DumpEnabled = vNondetBool("dump")
 	g := &BaseGun{Config: cfg, Client: cl}
 	ag := &hSampleAggr{}
 	_ = g.Bind(ag, core.GunDeps{Ctx: context.Background(), Log: zap.NewNop()})
@@ -150,7 +153,13 @@ func HarnessC10BaseGunShoot() {
 	}
 	vCheck("H3.method.kept", cl.got.Method == "POST")
 	vCheck("H3.path.query.kept", cl.got.URL.Path == "/a/b" && cl.got.URL.RawQuery == "q=1")
-	vCheck("H3.body.kept", cl.got.Body == body)
+	if cfg.HTTPTrace.DumpEnabled {
+		// (dumping reads the body and hands the client an equal copy)
+		got, _ := io.ReadAll(cl.got.Body)
+		vCheck("H3.body.bytes.kept", string(got) == "payload")
+	} else {
+		vCheck("H3.body.kept", cl.got.Body == body)
+	}
 	vCheck("H3.header.kept", len(cl.got.Header) == 1 && cl.got.Header.Get("X-A") == "1")
 	vReach("end")
 }
